@@ -33,7 +33,9 @@ def run(ctx):
     ctx.rule = ("case = cluster of a generated display name and 4-11 one-character neighbours (separators of display names, "
                 "escape look-alikes, multi-byte, prefixes of 150-5000 chars); distinct = distinct mangled symbols observed; "
                 "plus label sets of emitted .s files")
-    r = inproc.run_sharded("vh-text", "symbols", ctx.seed, count, "c19", timeout=ctx.pick(600, 2400))
+    r = inproc.run_sharded("vh-text", "symbols", ctx.seed, count, "c19", timeout=ctx.pick(2400, 4800))
+    for sh in r.timeouts:
+        ctx.inconc("shard %d hit the wall-clock watchdog" % sh)
     for o in r.bad:
         ctx.violation(o["key"], o["what"], files={"name.txt": o.get("input", "")})
     for d in r.deaths:
